@@ -100,6 +100,8 @@ fn main() {
             match args[2].as_str() {
                 "c12" => checks::c12::worker(seed, n, false),
                 "c12rev" => checks::c12::worker(seed, n, true),
+                "c12cur" => checks::c12::worker_curated(false),
+                "c12currev" => checks::c12::worker_curated(true),
                 "c15serve" => checks::c15::serve(),
                 _ => usage(),
             }
